@@ -7,24 +7,26 @@ import json, os, subprocess, sys, time
 def sh(cmd, **kw):
     return subprocess.run(cmd, shell=True, capture_output=True, text=True, **kw)
 
+REPO = os.environ.get("SEED_REPO", "/repo")  # a second lane of the regression works on a clone of /repo
+
 def main():
     seed = sys.argv[1]
     d = "/verif/seeded/" + seed
     props = sys.argv[2:] or [seed.split("-")[0]]
-    st = sh("git -C /repo status --porcelain").stdout.strip()
+    st = sh("git -C %s status --porcelain" % REPO).stdout.strip()
     if st:
-        print("refusing: /repo is not clean:\n" + st); sys.exit(2)
-    r = sh("git -C /repo apply --3way %s/patch.diff" % d)
+        print("refusing: repo is not clean:\n" + st); sys.exit(2)
+    r = sh("git -C %s apply --3way %s/patch.diff" % (REPO, d))
     if r.returncode != 0:
-        print("patch does not apply:", r.stderr); sh("git -C /repo reset -q --hard HEAD"); sys.exit(2)
+        print("patch does not apply:", r.stderr); sh("git -C %s reset -q --hard HEAD" % REPO); sys.exit(2)
     out = {}
     try:
-        b = sh("cd /repo && GOFLAGS=-mod=mod GOPROXY=off GOSUMDB=off GOTOOLCHAIN=local go build ./...")
+        b = sh("cd " + REPO + " && GOFLAGS=-mod=mod GOPROXY=off GOSUMDB=off GOTOOLCHAIN=local go build ./...")
         if b.returncode != 0:
             print("mutant does not build:", b.stderr[-2000:]); out["build"] = "failed"
         for p in props:
             t = time.time()
-            c = sh("cd /verif && ./check %s --tier %s" % (p, os.environ.get("SEED_TIER", "quick")))
+            c = sh("cd /verif && VERIF_REPO=%s ./check %s --tier %s" % (REPO, p, os.environ.get("SEED_TIER", "quick")))
             lines = [l for l in c.stdout.splitlines() if l.startswith("VIOLATION") or l.startswith("  clause") or l.startswith("  class") or l.startswith("  detail")]
             out[p] = {"exit": c.returncode, "wall_s": round(time.time() - t, 1), "first": lines[:8]}
             print("%s on %s: exit=%d (%.0fs)" % (p, seed, c.returncode, time.time() - t))
@@ -33,7 +35,7 @@ def main():
             if c.returncode not in (0, 1):
                 print(c.stderr[-1500:])
     finally:
-        sh("git -C /repo reset -q --hard HEAD")
+        sh("git -C %s reset -q --hard HEAD" % REPO)
     res_path = d + "/result.json"
     prev = {}
     if os.path.exists(res_path):
